@@ -79,20 +79,21 @@ func viewOf(ctx *model.Context) (docView, []string) {
 	return docView{c, pages}, errs
 }
 
-func sameView(a, b docView) (bool, string) {
+// sameView compares two views; on a difference it returns a description and the place (page or dictionary key).
+func sameView(a, b docView) (bool, string, string) {
 	if len(a.pages) != len(b.pages) {
-		return false, fmt.Sprintf("page count %d vs %d", len(a.pages), len(b.pages))
+		return false, fmt.Sprintf("page count %d vs %d", len(a.pages), len(b.pages)), "pagecount"
 	}
 	for i := range a.pages {
 		if !reflect.DeepEqual(a.pages[i].Markers, b.pages[i].Markers) || a.pages[i].Rot != b.pages[i].Rot || a.pages[i].Media != b.pages[i].Media ||
 			proj.NormContent(a.pages[i].Content) != proj.NormContent(b.pages[i].Content) {
-			return false, fmt.Sprintf("page %d differs", i+1)
+			return false, fmt.Sprintf("page %d differs", i+1), fmt.Sprintf("page%d", i+1)
 		}
 	}
 	if a.canon != b.canon {
-		return false, firstDiff(a.canon, b.canon)
+		return false, firstDiff(a.canon, b.canon), diffWhere(a.canon, b.canon)
 	}
-	return true, ""
+	return true, "", ""
 }
 
 func c22(in, out string, shard, of int) {
@@ -127,6 +128,8 @@ func c22(in, out string, shard, of int) {
 			b = richDoc("1.7", fixedMarker, false).Bytes()
 		case "rich20":
 			b = richDoc("2.0", fixedMarker, false).Bytes()
+		case "rich_objstm":
+			b = xrefStreamBytes(richDoc("1.7", fixedMarker, false))
 		default:
 			b, err = os.ReadFile(filepath.Join(repo, "pkg", "testdata", doc))
 			if err != nil {
@@ -167,7 +170,7 @@ func c22(in, out string, shard, of int) {
 		}
 		fail := func(key, what string, want, got any) {
 			bad++
-			if bad <= 400 {
+			if bad <= 3000 {
 				w.Put(rtMism{c, key, what, want, got})
 			}
 		}
@@ -210,11 +213,11 @@ func c22(in, out string, shard, of int) {
 			}
 			v, errs := viewOf(ctx)
 			if len(errs) > 0 {
-				fail(fmt.Sprintf("%s|%s|content", alg, c.Doc), p.name+": content unreadable", nil, errs)
+				fail(fmt.Sprintf("content|%s", c.Doc), p.name+": content unreadable", nil, errs)
 				continue
 			}
-			if ok, diff := sameView(src.view, v); !ok {
-				fail(fmt.Sprintf("%s|%s|content", alg, c.Doc), p.name+": document differs from the original", nil, diff)
+			if ok, diff, where := sameView(src.view, v); !ok {
+				fail(fmt.Sprintf("content|%s|%s", c.Doc, where), p.name+": document differs from the original", nil, diff)
 			}
 			checks++
 			pp, err := api.GetPermissionsFile(enc, pwConf(p.u, p.o))
@@ -240,19 +243,19 @@ func c22(in, out string, shard, of int) {
 			// the result must open without any password, be unencrypted and equal the original
 			ctx, err := proj.Context(dec, pwConf("", ""))
 			if err != nil {
-				fail(fmt.Sprintf("%s|%s|decrypted", alg, c.Doc), p.name+": result unreadable", "ok", err.Error())
+				fail(fmt.Sprintf("content|%s", c.Doc), p.name+": result unreadable", "ok", err.Error())
 				continue
 			}
 			if (ctx.E != nil || ctx.Encrypt != nil) != c.Exp.After {
-				fail(fmt.Sprintf("%s|%s|decrypted", alg, c.Doc), p.name+": result still encrypted", c.Exp.After, true)
+				fail(fmt.Sprintf("content|%s", c.Doc), p.name+": result still encrypted", c.Exp.After, true)
 			}
 			v, errs := viewOf(ctx)
 			if len(errs) > 0 {
-				fail(fmt.Sprintf("%s|%s|decrypted", alg, c.Doc), p.name+": content unreadable", nil, errs)
+				fail(fmt.Sprintf("content|%s", c.Doc), p.name+": content unreadable", nil, errs)
 				continue
 			}
-			if ok, diff := sameView(src.view, v); !ok {
-				fail(fmt.Sprintf("%s|%s|decrypted", alg, c.Doc), p.name+": document differs from the original", nil, diff)
+			if ok, diff, where := sameView(src.view, v); !ok {
+				fail(fmt.Sprintf("content|%s|%s", c.Doc, where), p.name+": document differs from the original", nil, diff)
 			}
 		}
 		return nil
